@@ -13,6 +13,7 @@ OPS: List[str] = P.get("ops", ["skip", "tail"])
 MAXLEN = P.get("maxlen", 4)
 POOL = list(range(-1, MAXLEN + 3))
 VIEW = P.get("view", "values")
+QUERY = P.get("query", "$[*]")
 
 
 def concretise(n: int) -> int:
@@ -78,8 +79,10 @@ def chain(arr: List[int], a: int, b: int, c: int) -> bool:
     post: _
     """
     counts = [concretise(x) for x in [a, b, c][: len(OPS)]]
-    q = ENV.query("$[*]", arr)
+    q = ENV.query(QUERY, arr)
     L: List[Tuple[int, Any]] = [(i, arr[i]) for i in range(len(arr))]
+    if QUERY == "$[0, 0, *]" and arr:  # a match sequence in which one node occurs more than once
+        L = [(0, arr[0]), (0, arr[0])] + L
     pending: List[Any] = []  # (taken query, expected) pairs, read only after the original has been driven on
     for op, n in zip(OPS, counts):
         err, newL, extra = _ref(L, op, n)
